@@ -6,8 +6,13 @@ S3  crash oracle on the real crate (harness/src/bin/c01.rs): adversarial crash i
     commit point between the last acknowledged durable and the last requested one.
 S2  (i) the extracted validator `window_okb` must accept every recorded sync window (the theorem's
     hypothesis holds for the real code on this history); (ii) the extracted `recover` must agree with
-    the real open on sampled crash images.  A rejected window is first explained by a concrete S3
-    violation of the same history; otherwise a directed search (that history alone, 10x budget) runs.
+    the real open on sampled crash images; (iii) the extracted PROTOCOL model (Storage/Protocol.v:
+    run_step / recovery_run), fed the kind of every recorded step (commit kind and durability from the
+    harness; page writes, slot bytes, growth / shrink targets from the stream), must emit the operation
+    stream the real crate issued: per sync window the header writes (all 320 bytes) and set_len calls in
+    order and the set of page writes.  A rejected window or a differing stream is first explained by a
+    concrete S3 violation of the same history; otherwise a directed search (that history alone, 10x
+    budget) runs; only if that finds nothing the check ends with no-failing-input-found.
 """
 import json
 import os
@@ -55,7 +60,7 @@ def run(ctx):
         cov["evaluations"] = stats["images"]
         cov["distinct_nontrivial"] = stats["distinct_nontrivial"]
         cov["input_distribution"] = {k: stats[k] for k in (
-            "histories", "images", "recovery_images", "continuation_images", "windows", "recover_cases",
+            "histories", "images", "recovery_images", "continuation_images", "windows", "protocol_segments", "recover_cases",
             "outcome_old", "outcome_new", "outcome_mid", "integrity_false", "images_by_kind", "markers", "configs")}
         cov["samples"] = stats["samples"][:5]
         hist_with_violation = set()
@@ -64,6 +69,7 @@ def run(ctx):
             if m:
                 hist_with_violation.add(int(m.group(1)))
         # ---- S2 (i): validator on every recorded window
+        unexplained = []          # (history, line): what the directed search has to explain
         rc2, err = ctx.driver("c01", "windows.txt", "windows_model.txt", args=["windows"])
         if rc2 != 0:
             s2_ok, detail = False, "validator driver failed rc=%s: %s" % (rc2, err)
@@ -74,32 +80,35 @@ def run(ctx):
             badlinks = [l for l in lines if l.startswith("L ") and " BAD " in l]
             cov["windows_accepted"] = n_ok
             cov["windows_rejected"] = len(rejected)
-            unexplained = []
             for l in rejected:
                 m = re.match(r"W h(\d+)", l)
                 h = int(m.group(1)) if m else -1
                 if h not in hist_with_violation:
-                    unexplained.append((h, l))
+                    unexplained.append((h, "validator window_okb rejects a recorded sync window: " + l))
             if badlinks:
                 s2_ok, detail = False, "window summaries inconsistent with the model's next_hdr/next_len/served slot: %s" % badlinks[:3]
-            if unexplained:
-                # directed search: each such history alone with a 10x image budget
-                found = False
-                searched = []
-                for h in sorted(set(h for h, _ in unexplained))[:6]:
-                    if h < 0:
-                        continue
-                    rc3, out3 = ctx.harness("c01", [n_hist, budget * 10, "only=%d" % h], timeout=3000)
-                    searched.append("history %d with budget %d: rc=%s" % (h, budget * 10, rc3))
-                    if rc3 == 0:
-                        vs3 = json.loads(_load(ctx, "violations.json"))
-                        if vs3:
-                            found = True
-                            _report_violations(ctx, vs3, [n_hist, budget * 10])
-                if not found:
-                    s2_ok = False
-                    detail = ("the validator window_okb rejects recorded sync windows (the hypothesis of crash_window_safe does not hold "
-                              "for the real operation stream) and the directed crash search found no failing image: %s" % [l for _, l in unexplained[:4]])
+        # ---- S2 (iii): the extracted protocol model (Storage/Protocol.v) against the real operation stream
+        if rc2 == 0:
+            rc5, err5 = ctx.driver("c01", "protocol.txt", "protocol_model.txt", args=["protocol"])
+            if rc5 != 0:
+                s2_ok, detail = False, "protocol driver failed rc=%s: %s" % (rc5, err5)
+            else:
+                plines = [l for l in _load(ctx, "protocol_model.txt").split("\n") if l.startswith("S ")]
+                pdiff = [l for l in plines if " DIFF " in l]
+                cov["protocol_segments_compared"] = sum(1 for l in plines if l.endswith(" ok")) + len(pdiff)
+                cov["protocol_segments_differ"] = len(pdiff)
+                kinds = {}
+                for l in plines:
+                    f = l.split(" ")
+                    if len(f) >= 5 and f[4] in ("ok", "DIFF"):
+                        k = f[3].split("_")[0]
+                        kinds[k] = kinds.get(k, 0) + 1
+                cov["protocol_segments_by_kind"] = kinds
+                for l in pdiff:
+                    m = re.match(r"S h(\d+)", l)
+                    h = int(m.group(1)) if m else -1
+                    if h not in hist_with_violation:
+                        unexplained.append((h, "the real operation stream differs from the one the protocol model emits for the same step: " + l[:900]))
         # ---- S2 (ii): recover model vs real open
         if s2_ok and rc2 == 0:
             rc4, err4 = ctx.driver("c01", "recover_cases.txt", "recover_model.txt", args=["recover"])
@@ -120,9 +129,28 @@ def run(ctx):
                 if diffs:
                     s2_ok = False
                     detail = "Coq `recover` and the real open disagree on which slot is served (real, model, case): %s" % (diffs[:3],)
+        # ---- directed search for every S2 difference that no S3 violation of the same history explains:
+        # that history alone with a 10x image budget (the crash oracle on the windows around the difference)
+        if unexplained:
+            found = False
+            searched = []
+            for h in sorted(set(h for h, _ in unexplained))[:6]:
+                if h < 0:
+                    continue
+                rc3, out3 = ctx.harness("c01", [n_hist, budget * 10, "only=%d" % h], timeout=3000)
+                searched.append("history %d with budget %d: rc=%s" % (h, budget * 10, rc3))
+                if rc3 == 0:
+                    vs3 = json.loads(_load(ctx, "violations.json"))
+                    if vs3:
+                        found = True
+                        _report_violations(ctx, vs3, [n_hist, budget * 10])
+            if not found:
+                s2_ok = False
+                detail = ("S2 broken and the directed crash search found no failing image: %s" % [l for _, l in unexplained[:4]])
     cov["rule"] = ("crash images = (history, crash point, fate of every unsynced op: dropped / applied / byte ranges applied; set_len applied or not), "
                    "opened with the real crate; non-trivial = distinct image whose window has at least one pending write or set_len")
-    cov["traces_validated_against_impl"] = cov.get("windows_accepted", 0) + cov.get("recover_cases_compared", 0)
+    cov["traces_validated_against_impl"] = (cov.get("windows_accepted", 0) + cov.get("recover_cases_compared", 0)
+                                            + cov.get("protocol_segments_compared", 0) - cov.get("protocol_segments_differ", 0))
     cov["trusted_base"] = [
         "Coq 8.16.1 kernel + vm_compute", "tools/gen_consts.py (header offsets)", "harness/src/bin/c01.rs (generators, crash-image builder, spec of commit points)",
         "rv_harness::backend::RecBackend", "redb hook src/verif_c01.rs (redb's own walkers) + redb::verif::{xxh3_128, page_number_address_range}",
